@@ -121,16 +121,19 @@ fn model_line(font: &MonoFont<'_>, t: &TextD, index_of: &dyn Fn(char) -> usize) 
 }
 
 fn draw_text(t: &TextD, font: &MonoFont<'_>, native: bool) -> PixMap {
+    draw_text_on(t, font, native, unbounded_box())
+}
+
+fn draw_text_on(t: &TextD, font: &MonoFont<'_>, native: bool, bx: embedded_graphics::primitives::Rectangle) -> PixMap {
     t.with_text::<C, _>(font, |text| {
         if native {
-            let mut tg = NativeTarget::<C>::new(unbounded_box());
+            let mut tg = NativeTarget::<C>::new(bx);
             let _ = text.draw(&mut tg);
-            tg.log.map
-        } else {
-            let mut tg = IterTarget::<C>::new(unbounded_box());
-            let _ = text.draw(&mut tg);
-            tg.log.map
+            return tg.log.map;
         }
+        let mut tg = IterTarget::<C>::new(bx);
+        let _ = text.draw(&mut tg);
+        tg.log.map
     })
 }
 
@@ -160,6 +163,48 @@ fn check_line(ctx: &mut Ctx, t: &TextD, font: &MonoFont<'_>, font_name: &str, in
                 format!("drawn text differs from the designated glyph cells at {:?} (x, y, drawn, expected); character cell {:?} = {:?} (glyph index {:?})\ndrawn:\n{}expected:\n{}", d, cell, ch, ch.map(|c| index_of(c)), got.ascii(70), want.ascii(70))
             });
             return;
+        }
+    }
+    // the same line on a bounded target whose edges coincide with / cut through glyph cells: inside
+    // the target exactly the designated pixels (a renderer may cull against the target's box, but
+    // must not lose or move what lies inside it)
+    if !want.is_empty() {
+        let (mut x0, mut y0, mut x1, mut y1) = (i32::MAX, i32::MAX, i32::MIN, i32::MIN);
+        for &(x, y) in want.px.keys() {
+            x0 = x0.min(x);
+            y0 = y0.min(y);
+            x1 = x1.max(x);
+            y1 = y1.max(y);
+        }
+        let (w, h) = ((x1 - x0 + 1) as u32, (y1 - y0 + 1) as u32);
+        let hsh = want.hash();
+        let k = (hsh % 4) as i32 + 1;
+        let bx = match hsh / 4 % 4 {
+            0 => egmon::target::rect(x0, y0, w, h),
+            1 => egmon::target::rect(x0 - k, y0 - 1, w, h),
+            2 => egmon::target::rect(x0 + k, y0 + 1, w, h),
+            _ => egmon::target::rect(x0 + (w as i32) / 2, y0 - 2, w, h + 4),
+        };
+        let inside = |x: i32, y: i32| x >= bx.top_left.x && y >= bx.top_left.y && x < bx.top_left.x + bx.size.width as i32 && y < bx.top_left.y + bx.size.height as i32;
+        let mut want_in = PixMap::new();
+        for (&(x, y), &c) in &want.px {
+            if inside(x, y) && !no_verdict.contains(&(x, y)) {
+                want_in.set(x, y, c);
+            }
+        }
+        for native in [false, true] {
+            let mut got = draw_text_on(t, font, native, bx);
+            for p in &no_verdict {
+                got.px.remove(p);
+            }
+            ctx.count("bounded_target_draws", 1);
+            if !got.same(&want_in) {
+                let d = got.first_diff(&want_in);
+                ctx.violation(format!("{}|bounded-target|{}", class, if native { "native" } else { "draw_iter-only" }), || format!("{} font {} on target box {:?}", zoo::Desc::Text(t.clone()).text(), font_name, egmon::target::rt(&bx)), || {
+                    format!("inside the target the drawn text differs from the designated glyph cells at {:?} (x, y, drawn, expected)\ndrawn:\n{}expected:\n{}", d, got.ascii(70), want_in.ascii(70))
+                });
+                return;
+            }
         }
     }
     ctx.count("characters_compared", t.text.chars().count() as u64);
